@@ -71,12 +71,13 @@ Definition entry := (bytes * N)%type.            (* grouping key (slot), package
 Definition aset := list (bytes * list entry).
 
 (* the scan of AtomSet.Add: None = key present (no change); Some pos = where to insert
-   (None inside = append).  As in the code the LAST smaller item wins. *)
+   (None inside = append): before the first item with a smaller key. *)
 Fixpoint scan_slice (key : bytes) (sl : list entry) (i : nat) (pos : option nat) : option (option nat) :=
   match sl with
   | [] => Some pos
   | (k, _) :: r => if beq k key then None
-                   else scan_slice key r (S i) (if ltb k key then Some i else pos)
+                   else scan_slice key r (S i)
+                          (match pos with None => if ltb k key then Some i else None | Some _ => pos end)
   end.
 Definition slice_add (key : bytes) (id : N) (sl : list entry) : list entry :=
   match scan_slice key sl 0 None with
